@@ -44,7 +44,7 @@ RULE = (
     "PeerGetUserInfo/PeerGetDirectoryContent, transfers.request_place_in_queue. Message classes: 10, among them "
     "PrivateChatMessage (its library handler acks through gather and is really suspended for several loop "
     "iterations), PeerTransferQueue for an unshared file, PeerUserInfoRequest. Matchers: 0..2 fields, exact or "
-    "callable, including (callable, exact). Three generator families (per 13 random cases: 8/3/2): "
+    "callable, including (callable, exact). Five generator families (per 17 random cases: 8/3/2/2/2): "
     "GENERAL — messages generated relative to a request (matching, wrong in the first/last matched field, right "
     "fields from the other peer, other type, unrelated); the end of a request before / exactly at / after the first "
     "matching arrival; a cancellation at the arrival instant in controlled orders (a: before the bytes reach the "
@@ -54,7 +54,13 @@ RULE = (
     "ticks of virtual time); an earlier-registered waiter is cancelled 0..8 loop iterations after the arrival, or "
     "reaches its library timeout / is cancelled at the arrival instant or inside the virtual-time suspension. "
     "CALL-RACE — zero-latency links; a matching reply is written 0..8 zero-time yields before/after the call is "
-    "started at the same virtual instant, so that it is processed while execute() is still sending. The first cases "
+    "started at the same virtual instant, so that it is processed while execute() is still sending. "
+    "BUSY-LOOP — a running callback 'takes' 4..48/1024 s (w.loop.stall) from the delivery callback of the reply "
+    "(+0..2 loop iterations) or from a harness timer 0..1 tick before, the reply arriving one tick before / at / one "
+    "tick after the deadline, all request kinds: overdue timers then fire in one batch behind the reply. "
+    "LINK-LOSS — requests to a peer are pending while that peer's P link is closed (EOF / RST by the peer, "
+    "disconnect by the client), with or without a second P link (closed too or not), with or without the peer "
+    "connecting again and replying over the new link before / after the deadline. The first cases "
     "are hand-written minimal histories of all of the above, then random.Random(f'{seed}:C12:{idx}') histories. "
     "Non-trivial = at least one request outcome was judged against the model; distinct = (multiset of request kinds, "
     "message pattern classes, segment shape, timing classes)."
@@ -86,24 +92,36 @@ ASSUMPTIONS = [
     "An application listener registered on MessageReceivedEvent that awaits (zero-time yields or virtual time) is a "
     "legitimate part of the environment; replies are not causally tied to requests (the server also pushes "
     "unsolicited status/stat updates), so a reply may be processed before the request frame has left.",
+    "Busy loop (w.loop.stall from a to b): an end instant that came due inside [a, b] counts as b; a reply seen at "
+    "b is then accepted either way (reply or the timeout error), any other exception is a violation.",
+    "Losing a peer connection does not end a pending request (the statement names only reply, timeout and "
+    "cancellation by the caller): the request keeps waiting, a matching message from that peer over any other / "
+    "new connection completes it, otherwise the timeout error at the deadline. Frames in flight on a closed link may "
+    "be lost (not judged). Requests are started before the link is closed (a request made without any connection "
+    "would have to connect first: C11). The server connection dropping while server requests are pending is not "
+    "exercised: the statement is silent on it and the client logs out.",
     "Not judged: which of several timers due at one virtual instant fires first (only varied, both outcomes accepted); "
-    "callable matchers that raise; connection loss while a request is pending and the cancel-on-send-failure path of "
-    "execute() (C10/C11 territory: needs a cut link, which ends the history); D/F connections and obfuscated links "
-    "(same on_message_received path); requests pending during shutdown.",
+    "callable matchers that raise; the cancel-on-send-failure path of execute() (needs a write that fails while the "
+    "connection still looks open); D/F connections and obfuscated links (same on_message_received path); requests "
+    "pending during shutdown.",
     "Frames are built with the repository's message classes with in-range values; the scripted server swallows "
     "GetPeerAddress requests so that only scripted replies arrive.",
 ]
 MIN_OBS = {
-    'quick': {'histories': 3000, 'requests_judged': 6500, 'messages_delivered': 8500, 'same_instant_cases': 1300,
-              'back_to_back_segments': 1300, 'residue_checks': 3000, 'later_delivery_checks': 3000,
-              'cancel_at_arrival_order_a': 50, 'cancel_at_arrival_order_b': 90, 'cancel_at_arrival_order_c': 50,
-              'cancel_at_arrival_plus_hops': 300, 'deadline_at_arrival': 600,
-              'requests_ended_while_handlers_suspended': 250, 'judged_by_order_at_the_call_instant': 450},
-    'thorough': {'histories': 80000, 'requests_judged': 180000, 'messages_delivered': 230000,
-                 'same_instant_cases': 38000, 'back_to_back_segments': 36000, 'residue_checks': 80000,
-                 'later_delivery_checks': 80000, 'cancel_at_arrival_order_a': 1400, 'cancel_at_arrival_order_b': 2500,
-                 'cancel_at_arrival_order_c': 1400, 'cancel_at_arrival_plus_hops': 8500, 'deadline_at_arrival': 17000,
-                 'requests_ended_while_handlers_suspended': 7000, 'judged_by_order_at_the_call_instant': 12000},
+    'quick': {'histories': 3900, 'requests_judged': 8000, 'messages_delivered': 9500, 'same_instant_cases': 1500,
+              'back_to_back_segments': 1250, 'residue_checks': 3900, 'later_delivery_checks': 3900,
+              'cancel_at_arrival_order_a': 50, 'cancel_at_arrival_order_b': 90, 'cancel_at_arrival_order_c': 40,
+              'cancel_at_arrival_plus_hops': 300, 'deadline_at_arrival': 700,
+              'requests_ended_while_handlers_suspended': 280, 'judged_by_order_at_the_call_instant': 450,
+              'deadline_inside_a_stall': 200, 'reply_and_deadline_inside_one_stall': 140,
+              'peer_link_closed_while_pending': 700, 'completed_over_another_link_after_a_close': 150},
+    'thorough': {'histories': 640000, 'requests_judged': 1100000, 'messages_delivered': 1300000,
+                 'same_instant_cases': 230000, 'back_to_back_segments': 190000, 'residue_checks': 640000,
+                 'later_delivery_checks': 640000, 'cancel_at_arrival_order_a': 10000, 'cancel_at_arrival_order_b': 17000,
+                 'cancel_at_arrival_order_c': 8000, 'cancel_at_arrival_plus_hops': 50000, 'deadline_at_arrival': 115000,
+                 'requests_ended_while_handlers_suspended': 48000, 'judged_by_order_at_the_call_instant': 75000,
+                 'deadline_inside_a_stall': 30000, 'reply_and_deadline_inside_one_stall': 22000,
+                 'peer_link_closed_while_pending': 110000, 'completed_over_another_link_after_a_close': 25000},
 }
 SHARD_TIMEOUT = {'quick': 600, 'thorough': 5400}
 WHAT_FAILS = {
@@ -548,24 +566,24 @@ def systematic() -> list[dict]:
             stalls=[{'t': tt - 1, 'n1024': 40}])
 
     # -- the peer's P link goes away while requests to that peer are pending ----------------------------------------
-    peer_templates = [(r, m) for r, m, link in templates if link == 'p1' and r['src'] in ('p1',)]
-    for r, m in peer_templates:
+    peer_templates = [(r, m, link) for r, m, link in templates if link in ('p1', 'p2') and r['src'] == link]
+    for r, m, pl in peer_templates:
         place = r['k'] == 'request_place_in_queue'
         pgdc = r['k'] == 'execute:PeerGetDirectoryContentCommand'
         rr = _copy(r)
         rr['end'] = T(PLACE_TICKS if place else 24)
         for mode in ('eof', 'rst', 'local'):
             add([rr], [], f'only P link of the peer closed ({mode}) while pending, no reply: timeout at the deadline',
-                closes=[{'link': 'p1', 't': 6, 'mode': mode}])
-        add([rr], [SEG('p1#r', 14, m)], 'only P link closed (eof), the peer connects again and replies in time',
-            closes=[{'link': 'p1', 't': 6, 'mode': 'eof'}], dials=[{'link': 'p1#r', 't': 9}])
-        add([rr], [SEG('p1#2', 12, m)], 'one of two P links closed (rst), reply over the other one',
-            closes=[{'link': 'p1', 't': 6, 'mode': 'rst'}], extra_links=['p1#2'])
+                closes=[{'link': pl, 't': 6, 'mode': mode}])
+        add([rr], [SEG(pl + '#r', 14, m)], 'only P link closed (eof), the peer connects again and replies in time',
+            closes=[{'link': pl, 't': 6, 'mode': 'eof'}], dials=[{'link': pl + '#r', 't': 9}])
+        add([rr], [SEG(pl + '#2', 12, m)], 'one of two P links closed (rst), reply over the other one',
+            closes=[{'link': pl, 't': 6, 'mode': 'rst'}], extra_links=[pl + '#2'])
         if not pgdc:
-            add([rr], [SEG('p1#r', 14, m)], 'both P links closed one after the other (the second is the last established), '
+            add([rr], [SEG(pl + '#r', 14, m)], 'both P links closed one after the other (the second is the last established), '
                 'the peer connects again and replies in time',
-                closes=[{'link': 'p1#2', 't': 5, 'mode': 'eof'}, {'link': 'p1', 't': 7, 'mode': 'eof'}],
-                dials=[{'link': 'p1#r', 't': 10}], extra_links=['p1#2'])
+                closes=[{'link': pl + '#2', 't': 5, 'mode': 'eof'}, {'link': pl, 't': 7, 'mode': 'eof'}],
+                dials=[{'link': pl + '#r', 't': 10}], extra_links=[pl + '#2'])
     return out
 
 
@@ -1574,9 +1592,9 @@ def run_case(params: dict) -> dict:
             res['inconclusive'] = f"event/frame association broken at {e['link']} {e['msg']!r}"
             return res
         e['uid'] = q.pop(0)[0]
-    # frames in flight on a link that was reset / disconnected by the client are legitimately lost
-    undelivered = {k: [u for u, _ in v] for k, v in per_link.items()
-                   if v and shared['closed_links'].get(k) not in ('rst', 'local')}
+    # frames in flight on a link that was closed are legitimately lost (RST / local disconnect; after a close() by
+    # the peer, anything the client writes to it is answered by an RST that overtakes nothing but kills the rest)
+    undelivered = {k: [u for u, _ in v] for k, v in per_link.items() if v and k not in shared['closed_links']}
     if shared.get('skipped_segments'):
         res['inconclusive'] = f"segments {shared['skipped_segments']} had no open link (generator)"
         return res
@@ -1685,6 +1703,13 @@ def run_case(params: dict) -> dict:
                 runner.add_obs(res, f"cancel_at_arrival_order_{r['end']['order']}")
             else:
                 runner.add_obs(res, 'cancel_at_arrival_plus_hops')
+        for cd in shared.get('closes_done') or ():
+            if r['src'] == cd['link'].split('#')[0] and rec['seq_call'] < cd['seq'] < rec.get('seq_end', 0):
+                runner.add_obs(res, 'peer_link_closed_while_pending')
+                runner.add_cover(res, 'link_loss', f"{k}:{cd['mode']}:{'last' if not [n for n in (hist.get('extra_links') or []) if n.split('#')[0] == r['src']] else 'one-of-two'}")
+        if rec.get('completed_by') is not None and '#' in hevents[rec['completed_by']]['link'] \
+                and (shared.get('closes_done') or ()):
+            runner.add_obs(res, 'completed_over_another_link_after_a_close')
         for x in j['matching']:
             e = hevents[x]
             if e['t'] == rec['t_call'] and j['status'][x] == 'must':
